@@ -30,6 +30,107 @@ print("@@" + json.dumps(out))
 '''
 
 
+AMBIENT_LOADER = r'''
+import sys, json, pickle
+sys.path.insert(0, %r)
+import rt
+from c16_ambient import describe
+out = {}
+blobs = pickle.load(open(%r, "rb"))
+for key, blob in blobs.items():
+    try:
+        out[key] = describe(pickle.loads(blob))
+    except Exception as ex:
+        out[key] = {"error": type(ex).__name__ + ": " + str(ex)[:160]}
+print("@@" + json.dumps(out))
+'''
+
+
+def ambient_family(run, rt):
+    """Queries planned, described and pickled inside a `dask.config.set(...)` context of the originating process
+    (see c16_ambient.py), loaded by a fresh interpreter with the default configuration."""
+    import shutil
+    import time
+    import dask
+    import c16_ambient as A
+    t0 = time.time()
+    quick = run.tier == "quick"
+    tmp = tempfile.mkdtemp(prefix="c16_amb_", dir=common.BUILD)
+    try:
+        T = A.tables(run.rng)
+        pq = os.path.join(tmp, "facts.parquet")
+        rt.dx.from_pandas(T["fact"][["k", "s", "v"]], npartitions=3).to_parquet(pq)
+        cases = A.plan_cases(run.rng, quick, pq)
+        blobs, local, origin = {}, {}, {}
+        unbuildable, uncomputable = 0, []
+        for case in cases:
+            th = A.thunk_of(case, pq)
+            with dask.config.set(case["config"]):
+                c = try_(lambda: th(rt.dx, T))
+                if c[0] == "raise":
+                    unbuildable += 1
+                    continue
+                for fn, f in A.forms(rt.dx).items():
+                    if fn not in case["forms"]:
+                        continue
+                    key = A.case_key(case, fn)
+                    x = try_(lambda: f(c[1]))
+                    if x[0] == "raise":
+                        uncomputable.append(key)
+                        continue
+                    b = try_(lambda: pickle.dumps(x[1]))
+                    d = try_(lambda: A.describe(x[1]))
+                    if d[0] == "raise":
+                        uncomputable.append(key)        # the originating process cannot compute it either: nothing to compare with
+                        continue
+                    origin[key] = (case, fn)
+                    if b[0] == "raise":
+                        run.count(("ambient", key))
+                        run.violation("%s cannot be pickled: %s" % (key, b[1]), {"kind": "ambient-pickle", "case": case, "form": fn})
+                        continue
+                    blobs[key], local[key] = b[1], d[1]
+        t_origin = time.time() - t0
+        path = os.path.join(tmp, "blobs.pkl")
+        pickle.dump(blobs, open(path, "wb"))
+        env = dict(os.environ)
+        env["PYTHONHASHSEED"] = "4242"
+        env["PYTHONPATH"] = common.REPO
+        for k in list(env):
+            if k.startswith("DASK_"):       # the receiver has the default configuration
+                del env[k]
+        p = subprocess.run([common.PY, "-c", AMBIENT_LOADER % (os.path.join(common.VERIF, "harness"), path)], env=env,
+                           stdout=subprocess.PIPE, stderr=subprocess.PIPE, text=True, timeout=3000)
+        if p.returncode != 0:
+            run.broken_tie("receiving interpreter failed (ambient family)", p.stderr[-1000:])
+            return
+        remote = json.loads([l for l in p.stdout.split("\n") if l.startswith("@@")][-1][2:])
+    finally:
+        shutil.rmtree(tmp, ignore_errors=True)
+    bad = 0
+    per_family = {}
+    for key, loc in local.items():
+        case, fn = origin[key]
+        run.count(("ambient", key))
+        per_family[case["family"]] = per_family.get(case["family"], 0) + 1
+        rem = remote.get(key, {"error": "missing"})
+        if "error" in rem:
+            bad += 1
+            run.violation("%s: planned under %s; loading / computing in a fresh process fails: %s" % (key, case["config"], rem["error"]),
+                          {"kind": "ambient", "case": case, "form": fn, "what": "error"})
+            continue
+        for what in A.FIELDS:
+            if what == "row order" and not A.ordered_is_defined(case):
+                continue
+            if loc[what] != rem[what]:
+                bad += 1
+                run.violation("%s: planned under %s; %s differs after the round trip: fresh process %s vs originating process %s"
+                              % (key, case["config"], what, _short(rem[what]), _short(loc[what])),
+                              {"kind": "ambient", "case": case, "form": fn, "what": what, "fresh": _short(rem[what]), "origin": _short(loc[what])})
+                break
+    run.section("ambient-config", cases=len(cases), objects=len(local), differing=bad, unbuildable=unbuildable, uncomputable_in_origin=uncomputable[:20], per_family=per_family,
+                wall_s=round(time.time() - t0, 1), origin_s=round(t_origin, 1))
+
+
 def run(run):
     import rt
     import catalogue
@@ -38,7 +139,10 @@ def run(run):
         "harness/gen_tables.py ast scan of global reads (which methods read which module-level mutable containers)",
     ]
     run.rule = ("every catalogue query x {as built, optimize(), optimize(fuse=False), lowered without optimization} pickled, loaded in a fresh interpreter (empty caches, different PYTHONHASHSEED): "
-                "name, npartitions, divisions, schema and computed result compared with the originating process; non-trivial = every (query, form)")
+                "name, npartitions, divisions, schema and computed result compared with the originating process; non-trivial = every (query, form); "
+                "plus the ambient-configuration family (c16_ambient.py): merges / joins (join kind x how x broadcast x partition counts), shuffles, set_index, sort_values, "
+                "groupby.*, drop_duplicates, unique, value_counts and string readers planned, described and pickled INSIDE a dask.config.set(...) context "
+                "(dataframe.shuffle.method, dataframe.convert-string) of the originating process and loaded by a fresh interpreter with the default configuration")
     run.proofs("PropC16.v")
     quick = run.tier == "quick"
     catalogue.write_parquet_dataset(rt.dx, os.path.join(common.BUILD, "cat_pq_c16"))
@@ -103,4 +207,5 @@ def run(run):
                 run.violation("%s: %s differs after the round trip: %s vs %s" % (key, what, _short(rem[what]), _short(loc[what])), {"kind": "roundtrip", "key": key, "what": what})
                 break
     run.section("roundtrip", objects=len(local), differing=bad, forms=list(forms))
+    ambient_family(run, rt)
     run.sample({"object": "set_index-a|optimized", "observed": local.get("set_index-a|optimized", {}).get("divisions")})
